@@ -342,7 +342,7 @@ def run(tier: str) -> int:
             for det in ("TRUE", "FALSE"):
                 for nsa in ("TRUE", "FALSE"):
                     configs.append(dict(Cap=cap, AutoReload=ar, Detectable=det, NSAware=nsa, MaxEdits=1 if tier == "quick" else 2,
-                                        MaxLen=L))
+                                        MaxLen=L if (tier == "quick" or cap == 2) else 3))      # thorough: length 4 at capacity 2, length 3 at 1 and 3
     if tier == "quick":   # capacity 1: every second key evicts
         configs.append(dict(Cap=1, AutoReload="TRUE", Detectable="TRUE", NSAware="TRUE", MaxEdits=1, MaxLen=3))
     jobs = []
